@@ -2,7 +2,7 @@ SPEC = {
     'id': 'C23',
     'harness': 'hC23',
     'coq_dir': 'C23',
-    'claimed': False,
+    'claimed': True,
     'theorems': ['C23_length_le_count', 'C23_event_reply', 'C23_no_duplicates',
                  'C23_pooled_not_excluded_not_expired', 'C23_non_eth_keep_order', 'C23_prefork_arrival_order',
                  'C23_eth_runs_consecutive', 'C23_eth_runs_consecutive_nowrap', 'C23_eth_runs_maximal',
